@@ -261,9 +261,10 @@ func (l *lexer) next() (byte, bool) {
 
 func (l *lexer) skipComment() bool {
 	for {
-		switch l.peek() {
-		case 0:
+		if len(l.source) == l.offset {
 			return true
+		}
+		switch l.peek() {
 		case '\\':
 			switch l.offset++; l.peek() {
 			case '\\', '\n':
